@@ -7,6 +7,7 @@ import (
 	"fmt"
 	"math/rand"
 	"sync"
+	"sync/atomic"
 	"time"
 
 	"google.golang.org/grpc"
@@ -34,10 +35,12 @@ type refusingCM struct {
 	mu     sync.Mutex
 	r      *rand.Rand
 	refuse int // percent
+	calls  int // connection attempts so far
 }
 
 func (c *refusingCM) Connection(ctx context.Context, addr, dialer string) (*grpc.ClientConn, func(), error) {
 	c.mu.Lock()
+	c.calls++
 	no := c.r.Intn(100) < c.refuse
 	c.mu.Unlock()
 	if no {
@@ -255,6 +258,55 @@ func managerScenario(w *trace.Writer, seed int64) bool {
 	return hung
 }
 
+// managerBackoff: with a retry delay of an hour, a failed attempt is followed by no further attempt for a long time
+// (the retry loop backs off; it neither stops nor spins). One target whose attempts all fail - refused dials or
+// streams that break - is watched for 1.5 s after its first failure.
+func managerBackoff(w *trace.Writer, seed int64) {
+	r := rand.New(rand.NewSource(seed))
+	w.Emit(trace.E{"ev": "reset"})
+	srv, err := newFakeServer(func(string, string, int, int) {})
+	if err != nil {
+		panic(err)
+	}
+	defer srv.stop()
+	inner, _ := connection.NewManager(grpc.WithTransportCredentials(insecure.NewCredentials()))
+	cm := &refusingCM{inner: inner, r: rand.New(rand.NewSource(seed)), refuse: []int{100, 0}[r.Intn(2)]}
+	var fails int64
+	m, err := manager.NewManager(manager.Config{
+		Reset:             func(string) { atomic.AddInt64(&fails, 1) },
+		ConnectError:      func(string, error) { atomic.AddInt64(&fails, 1) },
+		ConnectionManager: cm,
+	})
+	if err != nil {
+		panic(err)
+	}
+	// every stream breaks after a message or two
+	var script []fakeSession
+	for i := 0; i < 50; i++ {
+		script = append(script, fakeSession{Msgs: []string{"u", "s"}[:1+r.Intn(2)], Outcome: []string{"error", "eof"}[r.Intn(2)]})
+	}
+	srv.mu.Lock()
+	srv.scripts["t1"] = script
+	srv.mu.Unlock()
+	sr := &pb.SubscribeRequest{Request: &pb.SubscribeRequest_Subscribe{Subscribe: &pb.SubscriptionList{}}}
+	if err := m.Add("t1", &tpb.Target{Addresses: []string{srv.addr}}, sr); err != nil {
+		panic(err)
+	}
+	deadline := time.Now().Add(10 * time.Second)
+	for atomic.LoadInt64(&fails) == 0 && time.Now().Before(deadline) {
+		time.Sleep(time.Millisecond)
+	}
+	cm.mu.Lock()
+	before := cm.calls
+	cm.mu.Unlock()
+	time.Sleep(1500 * time.Millisecond)
+	cm.mu.Lock()
+	after := cm.calls
+	cm.mu.Unlock()
+	w.Emit(trace.E{"ev": "backoffwin", "t": "t1", "failed": atomic.LoadInt64(&fails) > 0, "attempts": after - before, "window_ms": 1500, "base_ms": 3600000})
+	m.Remove("t1")
+}
+
 func managerRandom(args []string) error {
 	fs := flag.NewFlagSet("manager random", flag.ContinueOnError)
 	n := fs.Int("n", 100, "scenarios")
@@ -287,8 +339,13 @@ func managerRandom(args []string) error {
 		}(s)
 	}
 	wg.Wait()
+	// back-off scenarios last and alone: the retry delays are package-level variables
+	manager.RetryBaseDelay, manager.RetryMaxDelay = time.Hour, time.Hour
+	for i := 0; i < 3; i++ {
+		managerBackoff(ss.ws[i%len(ss.ws)], seed*911+int64(i))
+	}
 	ev := ss.close()
-	fmt.Printf("DRV manager random scenarios=%d events=%d hangs=%d\n", *n, ev, hangs)
+	fmt.Printf("DRV manager random scenarios=%d events=%d hangs=%d\n", *n+3, ev, hangs)
 	return nil
 }
 
